@@ -94,6 +94,7 @@ def matchable_match_to(c):
 
 @contract("adapters.py", "MultipleAdapters.match_to", props=["C09"])
 def multiple_match_to(c):
+    c.runtime = {"module": "cmods", "name": "best_match", "replay_count": 3000}
     c.types(self=MultipleT, sequence=Str)
     c.returns(OptT(MatchT))
     c.spec(mt_spec)
